@@ -175,6 +175,20 @@ impl Pattern {
     }
 }
 
+/// Verification hooks (compiled only with `--cfg uutils_findutils_verif`).
+#[cfg(uutils_findutils_verif)]
+pub mod verif {
+    /// The basic regular expression a glob is translated to.
+    pub fn glob_to_regex(pattern: &str) -> Option<String> {
+        super::glob_to_regex(pattern)
+    }
+
+    /// Whether the glob matches the string.
+    pub fn matches(pattern: &str, caseless: bool, string: &str) -> bool {
+        super::Pattern::new(pattern, caseless).matches(string)
+    }
+}
+
 #[cfg(test)]
 mod tests {
     use super::*;
